@@ -255,9 +255,8 @@ func (p *busProvider) Start(autoReconnect bool, cb api.MdnsResolveCB) bool {
 	}
 	p.bus.mu.Unlock()
 	go func() {
-		// browse results take a network round trip; the manager stores its report callback
-		// right after starting the provider (DESIGN.md: start-up window not part of C17)
-		time.Sleep(30 * time.Millisecond)
+		// browse results take a network round trip
+		time.Sleep(5 * time.Millisecond)
 		for _, f := range found {
 			p.bus.deliver(p.node, f.n, f.a, false)
 		}
@@ -492,6 +491,14 @@ type Node struct {
 	bus    *Bus
 	L      *Log
 	ShipID string
+	hmu    sync.Mutex
+}
+
+// H returns the current hub (the hub is replaced by Restart).
+func (nd *Node) H() *hub.Hub {
+	nd.hmu.Lock()
+	defer nd.hmu.Unlock()
+	return nd.Hub
 }
 
 // Net is one scenario's network.
@@ -545,7 +552,10 @@ func (nd *Node) build() {
 	nd.bus.mu.Unlock()
 	local := api.NewServiceDetails(nd.SKI)
 	local.SetShipID(nd.ShipID)
-	nd.Hub = hub.NewHub(nd.App, &mdnsAdapter{MdnsManager: nd.Mgr, prov: nd.prov}, nd.Port, nd.Cert, local)
+	h := hub.NewHub(nd.App, &mdnsAdapter{MdnsManager: nd.Mgr, prov: nd.prov}, nd.Port, nd.Cert, local)
+	nd.hmu.Lock()
+	nd.Hub = h
+	nd.hmu.Unlock()
 }
 
 // Restart replaces the hub of a node by a fresh one (same certificate and port): a device reboot.
